@@ -48,7 +48,7 @@ func TestC02(t *testing.T) {
 	rnd := r.Rand()
 	var cases []mon.CaseSpec
 	procs := []int{1, 2, 16}
-	n := r.Pick(160, 1600)
+	n := r.Pick(160, 8000)
 	for i := 0; i < n; i++ {
 		sp := spec{Kind: "pair", Proto: []string{"pair", "pair", "pair1", "xpair"}[rnd.Intn(4)], Tran: []string{"inproc", "tcp", "ipc"}[rnd.Intn(3)],
 			Senders: 1 + rnd.Intn(6), Recvrs: 1 + rnd.Intn(2), Msgs: 20 + rnd.Intn(60), WQ: qlens[i%4], RQ: qlens[(i/4)%4],
